@@ -132,6 +132,7 @@ def main(argv):
         return 3
     cfg = PROPS[prop]
     tier = a.tier if a.tier in ("quick", "thorough") else "quick"
+    os.environ["VERIF_TIER_EFFECTIVE"] = tier
     t0 = time.time()
     run_id = f"{prop}_{tier}"
     outdir = os.path.join(OUT, run_id)
